@@ -42,7 +42,7 @@ ITER_ASSUME = [
     'the iterator constructor FlopExhaustiveEvaluatorIterator::new is VERIFIED (deck = the 49 cards not on the flop in card-code order, entries = a duplicate-free listing of each range, wf()); assumed inside it: RankRange/SuitRange::into_iter yield the contiguous runs (Kani c13_rank_range*, c13_suit_range), <[T; N]>::try_from(Vec) succeeds iff the length is N (assume_specification; try_into() is spelled as the try_from it calls), precondition: fewer than 2^30 players (usize arithmetic of the capacity hint)',
     'FlopExhaustiveEvaluator::new (field copies via Clone) is assumed and pinned to a fingerprint of its source; a change voids the assumption and triggers the failing-input search',
     'legal(c) is phrased as the code\'s materialisation test; lemma_legal_distinct (proved, Verus) shows it is exactly "all 5+2n cards of the deal are pairwise different"',
-    'exactly-once (proved, Verus): lemma_succ_rank: one step raises cur_rank = position_index * prod(lens) + mixed_radix(idx) by exactly 1; lemma_cur_rank_inj: cur_rank is injective on valid cursors; lemma_orbit_covers: every valid cursor whose rank lies in [rank(start), rank(start)+k) is the (rank difference)-th element of the orbit. What stays on paper is only the composition with the stepper contract across successive next() calls (induction over calls)',
+    'exactly-once (proved, Verus): lemma_succ_rank: one step raises cur_rank = position_index * prod(lens) + mixed_radix(idx) by exactly 1; lemma_cur_rank_inj: cur_rank is injective on valid cursors; lemma_orbit_covers: every valid cursor whose rank lies in [rank(start), rank(start)+k) is the (rank difference)-th element of the orbit. The composition across successive next() calls is mechanised too: the verified clients verif_drain / verif_run (specs/drain_spec.rs; proof scaffolding, not code of the crate) call the real into_iter() and next() until None and are checked against those contracts only; verif_run ensures run_is_enumeration: the output is, in enumeration order and each exactly once, the showdown of every legal deal whose board position lies in [from, to), and nothing else',
 ]
 ITER_SAMPLES = [
     {'obligation': 'FlopExhaustiveEvaluatorIterator::next postcondition', 'clause': 'next_post(*old(self), *final(self), res): Some(sd) ==> exists k. skipped(g,a,k) && legal(adv(a,k)) && is_showdown_of(sd, combos_at, board_at, prob_at) && cursor == succ(adv(a,k)); None ==> some range empty or exists k. skipped(g,a,k) && adv(a,k) at the scope end'},
@@ -175,15 +175,21 @@ TOKEN_ASSUME = [
     DERIVE,
 ]
 
+LIST_ALLOWED = [DERIVE_ALLOWED, r'^external_body pub fn (into_iter|from_str|verif_strip_spaces|verif_is_empty|verif_split_commas)',
+                r'^uninterp spec pub uninterp spec fn (parse_tok|strip_spaces|split_commas|unit_interval)', r'axiom_pair_key_models']
+LIST_ASSUME = [
+    'Verus (unit LIST), list level of HandRange::from_str, for ALL lists of any length: the real function never returns Err, and its result is range_of_text(s) = the left fold over the comma-separated pieces of the blank-stripped text, each accepted piece writing expand_combos(t) with the token\'s weight into the map in order (so a later token\'s weight replaces an earlier one: lemma_apply_token_wins / lemma_apply_token_frame), rejected pieces skipped, the empty text giving the empty range; and range_valid: every combo of the result is two different cards with a weight in the unit interval',
+    'ASSUMED in unit LIST (text level is abstract there): `s.replace(" ", "")`, `trimmed.len() == 0`, `trimmed.split(",")` are replaced by external_body wrappers verif_strip_spaces / verif_is_empty / verif_split_commas around exactly those std calls, specified by uninterpreted strip_spaces / split_commas; HandRangeToken::from_str is a stub whose contract (deterministic function parse_tok of the text; Ok(t) ==> token_wf(t) and weight in the unit interval) is what the Kani harnesses of TOKEN-STR establish for strings of <= 9 / 12 bytes; HandRangeToken::into_iter is a stub whose contract is proved in unit TOKEN',
+]
+
 MULTI['C05'] = dict(
-    parts=[_k_token('TOKEN-STR', TOK_MEANING), _v('token', TOKEN_ALLOWED)],
+    parts=[_k_token('TOKEN-STR', TOK_MEANING), _v('token', TOKEN_ALLOWED), _v('list', LIST_ALLOWED)],
     assumptions=TOKEN_ASSUME + [
         'Verus (unit TOKEN): HandRangeToken::into_iter on a well-formed token returns exactly expand_combos(t) in order, each with the token\'s weight; RankPair::into_iter returns combos_seq(rp); lemma_combos_pocket/suited/ofsuit: combos_seq is the first-principles suit enumeration (6 / 4 / 12)',
         'Kani: for all ranks / suits (symbolic) each of the 7 token shapes without weight parses to the value it denotes with weight 1; \':0\' and \':1\' are carried, \':1.5\' is rejected',
-        'NOT decided: the list level of HandRange::from_str (strip spaces, split on commas, later token overwrites, empty string) -- String::replace/split and HashMap are outside both verifiers; only the failing-input search exercises it',
-    ],
+    ] + LIST_ASSUME,
     bounded=['weights other than none / :0 / :1 / :1.5 are covered only through the parse_probability abstraction'],
-    not_decided=['list level of HandRange::from_str'],
+    not_decided=['what String::replace(" ", "") and str::split(",") return (std, assumed to strip blanks and split at commas)'],
     samples=[
         {'obligation': 'HandRangeToken::into_iter postcondition', 'clause': 'token_wf(self) ==> res@.len() == expand_combos(self).len() && forall i. res@[i].0 == expand_combos(self)[i] && res@[i].1 == self.probability'},
         {'harness': 'tok_meaning_rank_pairs', 'asserts': "from_str('HKs') == SingleRankPair(Suited(H,K)):1, 'HKs+' == BottomClosed(..), 'HKs-HEs' == DoubleClosed(.., E) for all H < K < E, s/o"},
@@ -195,15 +201,16 @@ FMT_ALLOWED = [DERIVE_ALLOWED, r'^external_body pub fn (into_iter|f32_eq|f32_ne|
 MULTI['C09'] = dict(
     parts=[_k_card('CARD-STR', ['c09_rank_suit_card_from_str_4', 'c09_cardpair_from_str_6'], [STR_BOUND_Q]),
            _k_token('TOKEN-STR', TOK_TOTAL_Q, TOK_TOTAL_T, [STR_BOUND_Q]),
-           _v('token', TOKEN_ALLOWED), _v('range', RANGE_ALLOWED), _v('iter', ITER_ALLOWED), _v('fmt', FMT_ALLOWED)],
+           _v('token', TOKEN_ALLOWED), _v('range', RANGE_ALLOWED), _v('iter', ITER_ALLOWED), _v('fmt', FMT_ALLOWED), _v('list', LIST_ALLOWED)],
     assumptions=TOKEN_ASSUME + [
         'Verus (unit FMT): the token-building prefix of Display for HandRange (D3: everything before `let mut res = f.write_str(..)`) has no panic path for any range: its nine unwrap()s are discharged from the run-state invariant "a run is open only at a rank pair that is in the map"; the tail (joining the own Display of the tokens with commas through core::fmt::Formatter) is NOT covered',
         'Kani (bounded strings): Rank/Suit/Card::from_str (<= 4 bytes), CardPair::from_str (<= 6 bytes), HandRangeToken::from_str (<= 9 / 12 bytes) return normally, and Ok(t) ==> token_wf(t)',
         'Verus: under token_wf, HandRangeToken::into_iter has no panic path (RankRange slicing precondition, unwrap of high.next()); rank_pairs / orphan_card_pairs have none for any range; next() has none under wf() (C08)',
-        'NOT decided: HandRange::from_str\'s own replace/split lines, Display for HandRange / HandRangeToken (Formatter)',
-    ],
+        'Verus (unit LIST): HandRange::from_str has no panic path of its own and never returns Err, for lists of any length (its std calls replace / split are assumed total; the token parser is the stub proved total by Kani on bounded strings)',
+        'NOT decided: Display for HandRange / HandRangeToken (Formatter)',
+    ] + LIST_ASSUME[1:],
     bounded=[STR_BOUND_Q],
-    not_decided=['HandRange::from_str list level', 'Display (formatting) of ranges and tokens'],
+    not_decided=['Display (formatting) of ranges and tokens'],
     samples=[
         {'harness': 'tok_total_parse_9_multibyte', 'asserts': 'for every ASCII string of <= 9 bytes with one "é" anywhere: from_str returns; Ok(t) ==> token_wf(t)'},
         {'obligation': 'HandRangeToken::into_iter', 'clause': 'requires token_wf(self); all built-in obligations (slice ranges, unwrap) discharged'},
@@ -214,8 +221,8 @@ MULTI['C09'] = dict(
 MULTI['C10'] = dict(
     parts=[_k_token('TOKEN-STR', TOK_TOTAL_Q, TOK_TOTAL_T, [STR_BOUND_Q]),
            _k_card('F32', ['c10_f32_product_unit_interval']),
-           _v('token', TOKEN_ALLOWED), _v('iter', ITER_ALLOWED)],
-    assumptions=TOKEN_ASSUME + [
+           _v('token', TOKEN_ALLOWED), _v('iter', ITER_ALLOWED), _v('list', LIST_ALLOWED)],
+    assumptions=TOKEN_ASSUME + LIST_ASSUME + [
         'Kani (bounded strings): Ok(t) ==> token_wf(t): weight in [0,1] (under the parse_probability abstraction: accepted tokens carry the parsed value, values above 1 are rejected), SingleCardPair has two different cards, spans ordered',
         'Verus (unit TOKEN): every entry of the expansion carries the token\'s weight; lemma_token_distinct: every combo of expand_combos(t) has two different cards',
         'Kani (complete, binary32): a, b in [0,1] ==> a*b in [0,1] and 1.0*a == a; Verus (unit ITER): a showdown\'s probability is the left fold of f32 products of the chosen weights (f32_mul uninterpreted there) -- the induction over the fold is on paper',
@@ -223,8 +230,9 @@ MULTI['C10'] = dict(
         'f32::from_str returns a non-negative finite value on the weight grammar (documented behaviour, not verified)',
     ],
     bounded=[STR_BOUND_Q],
-    not_decided=['HandRange::from_str list level'],
+    not_decided=[],
     samples=[
+        {'obligation': 'HandRange::from_str postcondition (unit LIST)', 'clause': 'r is Ok && r->Ok_0.0@ == range_of_text(s@) && range_valid(r->Ok_0.0@)'},
         {'harness': 'tok_total_parse_9', 'asserts': 'Ok(t) ==> 0 <= t.probability <= 1 && (SingleCardPair(p) ==> p[0] != p[1]) && ...'},
         {'obligation': 'lemma_token_distinct', 'clause': 'token_wf(t) ==> forall i. expand_combos(t)[i].0 != expand_combos(t)[i].1'},
     ],
